@@ -118,6 +118,11 @@ def nearest_index(rep, prog, rule, strict=False):
         elif b[0] == "bin" and b[1] == "Sub" and width_of(b[2]) and b[3][0] == "const" \
                 and b[3][1] >= 1:
             rep.ok(rule, key, c.at, "index <= %s" % fmt(bound))
+        elif strict and re.search(r"crop_box\([^)]*\)\.(left|width|top|height)", fmt(bound)):
+            rep.bad(rule, key + "|crop-dependent", c.at, "the column clamp %s depends on the crop "
+                    "box: the documented index floor(left + (x+0.5)*scale) needs no clamp except "
+                    "against the row length, so a tighter, crop-dependent bound changes which "
+                    "source pixel is picked (e.g. for a fractional right edge)" % fmt(bound)[:160])
         elif width_of(b):
             rep.bad(rule, key, c.at, "column index is clamped with min(.., %s): the bound equals "
                     "the row length, so index == width is possible and get_unchecked reads one "
